@@ -122,7 +122,8 @@ class Encoding:
         if isinstance(q["source"], dict):
             inner_out, _ = self.evaluate(q["source"], binding, present)
             present = inner_out
-            if set(q["source"]["select"]) < set(c["col"] for c in q["where"]) | set(q["group_by"] or []) | set(q["select"]):
+            provided = set(COLS) | {"created_at"} if q["source"]["select"] == ["*"] else set(q["source"]["select"])
+            if not (set(c["col"] for c in q["where"]) | set(q["group_by"] or []) | set(q["select"])) <= provided | {"*"}:
                 from engine.sqlfront import Unsupported
 
                 raise Unsupported("outer query uses a column the sub-select does not provide")
